@@ -192,9 +192,16 @@ func checkC04(c *Ctx) {
 					okAll = false
 					detail = sprintf("at %s: the fee component of the key is a converted amount, the entry is stored under its external-unit fee", where)
 				}
-				if !(il.HasField("SendToExternal.Id") && fl.HasField("SendToExternal.Fee.Amount")) || fl.HasField("SendToExternal.Token.Amount") || fl.HasField("SendToExternal.ValCommission.Amount") {
-					okAll = false
-					detail = sprintf("at %s: id<-%v fee<-%v", where, il.List(), fl.List())
+				fromEntry := func(il, fl *ana.Prov) bool {
+					return il.HasField("SendToExternal.Id") && fl.HasField("SendToExternal.Fee.Amount") && !fl.HasField("SendToExternal.Token.Amount") && !fl.HasField("SendToExternal.ValCommission.Amount")
+				}
+				if !fromEntry(il, fl) {
+					// the entry may be a local that was just built (the setter written in place): its fields by name
+					nf := ana.PVOpt{NoFieldStores: true}
+					if !fromEntry(p.PartLeaves(*idP, outer, nf), p.PartLeaves(*feeP, outer, nf)) {
+						okAll = false
+						detail = sprintf("at %s: id<-%v fee<-%v", where, il.List(), fl.List())
+					}
 				}
 				// a pool entry does not record the chain whose pool it sits in: a delete whose chain component is
 				// taken from the entry (its RefundChainId) addresses another chain's pool and removes nothing
